@@ -105,12 +105,26 @@ def gen_binding_cases(rnd, n):
         names = rnd.sample(NAME_POOL, k)
         if rnd.random() < 0.12:
             names = rnd.sample(['id', 'name', 'b_2', 'col', 'x1', 'zz', 'Total'], k)
+        # near-duplicate names: distinct columns whose names coincide after strip / case folding / truncation must stay distinct
+        base = None
+        if rnd.random() < 0.35:
+            base = rnd.choice(names)
+            twins = [' ' + base, base + ' ', '  ' + base + ' ', base.upper(), base.lower(), base.swapcase(), base + '_', '_' + base, base + base, base[:-1], base + '\t']
+            rnd.shuffle(twins)
+            for t in twins[:rnd.randint(1, 2)]:
+                if t not in names and t != '':
+                    names.insert(rnd.randrange(len(names) + 1), t)
+            k = len(names)
         if any(AB_TOKEN.search(x) for x in names):
             continue
         rows = [['r%d c%d' % (r, c) for c in range(k)] for r in range(1, 4)]
         pos = rnd.randrange(k)
+        if base is not None and rnd.random() < 0.6:
+            pos = names.index(base)          # address the column that has a near-duplicate
         nm = names[pos]
         spell = rnd.choice(['dq', 'sq', 'repr', 'attr', 'direct'])
+        if base is not None and re.match(r'^[_a-zA-Z][_a-zA-Z0-9]*$', nm) and rnd.random() < 0.4:
+            spell = 'attr'
         safe_direct = all(x in ('id', 'name', 'b_2', 'col', 'x1', 'zz', 'Total') for x in names)   # no clash with RBQL's own variables (NR, a1, …)
         if safe_direct and rnd.random() < 0.6:
             spell = 'direct'
@@ -135,8 +149,8 @@ def gen_binding_cases(rnd, n):
             normalize = False
         if fe == 'csv' and any(('\n' in x or '\r' in x) and False for x in names):
             continue
-        if fe == 'sqlite' and any(x == '' for x in names):
-            continue
+        if fe == 'sqlite' and (any(x == '' for x in names) or len(set(x.lower() for x in names)) != len(names)):
+            continue      # SQLite column names are case-insensitive: a table with columns x1 and X1 cannot exist there
         cases.append({'names': names, 'rows': rows, 'query': 'select %s, NR' % var, 'frontend': fe, 'normalize': normalize, 'pos': pos, 'spell': spell})
     return cases
 
